@@ -182,6 +182,10 @@ type ExportCase struct {
 	ByDigest bool   `json:"by_digest,omitempty"` // source ref names the digest instead of the tag
 	Gzip     bool   `json:"gzip,omitempty"`
 	Override bool   `json:"override,omitempty"` // ImageWithExportRef(other.example/over/ride:ov)
+	// Damage: "" or "<n>:<how>": the n-th hosted blob (sorted by digest) of the image is damaged at
+	// the source before the export; how = flip (same length, one byte changed), short (last byte
+	// missing), long (one byte appended)
+	Damage string `json:"damage,omitempty"`
 }
 
 func (e ExportCase) String() string {
@@ -194,6 +198,9 @@ func (e ExportCase) String() string {
 	}
 	if e.Override {
 		s += " export-ref"
+	}
+	if e.Damage != "" {
+		s += " damaged-source=" + e.Damage
 	}
 	return s
 }
@@ -212,6 +219,39 @@ type exported struct {
 	Name     string // full name recorded for the image (export ref common name)
 	Requests int
 	ExtFetch int // requests served by the external-URL host during the export
+	Damaged  string // digest of the blob damaged at the source
+}
+
+// hostedBlobs lists the blobs of the image's own closure that the source holds, sorted.
+func hostedBlobs(g *graphs.Graph) []string {
+	reach := closureOf(g)
+	var ds []string
+	for d := range g.Blobs {
+		if reach[d] && !g.External[d] {
+			ds = append(ds, d)
+		}
+	}
+	sort.Strings(ds)
+	return ds
+}
+
+func damage(b []byte, how string) []byte {
+	o := append([]byte{}, b...)
+	switch how {
+	case "flip":
+		if len(o) == 0 {
+			return []byte{'x'}
+		}
+		o[len(o)/2] ^= 0x01
+	case "short":
+		if len(o) == 0 {
+			return []byte{'x'}
+		}
+		o = o[:len(o)-1]
+	case "long":
+		o = append(o, 'x')
+	}
+	return o
 }
 
 var dirSeq int
@@ -306,6 +346,29 @@ func doExport(ec ExportCase, scratch string) *exported {
 		ex.Name = or.CommonName()
 	}
 	ex.SrcReach, ex.SrcProbs = audit.Closure(ex.SrcStore, g.Top, audit.ClosureOpts{})
+	if ec.Damage != "" {
+		var n int
+		var how string
+		fmt.Sscanf(strings.Replace(ec.Damage, ":", " ", 1), "%d %s", &n, &how)
+		ds := hostedBlobs(g)
+		if n >= len(ds) {
+			ex.Err = fmt.Errorf("harness: no blob %d in %s", n, g.Name)
+			return ex
+		}
+		d := ds[n]
+		b := damage(g.Blobs[d], how)
+		if ec.Src == "dir" {
+			sp := strings.SplitN(d, ":", 2)
+			fn := filepath.Join(ex.SrcStore.(audit.DirStore).Dir, "blobs", sp[0], sp[1])
+			if err := os.WriteFile(fn, b, 0o644); err != nil {
+				ex.Err = fmt.Errorf("harness: damage: %w", err)
+				return ex
+			}
+		} else {
+			ex.SrcStore.(audit.RepoStore).R.Blobs[d] = b
+		}
+		ex.Damaged = d
+	}
 	rc := rcenv.New(net, hosts, rcenv.Opts{})
 	ctx := context.Background()
 	var buf bytes.Buffer
